@@ -343,7 +343,7 @@ META = {
              'once; the fetch window of every bin extends by exactly the fragment size wherever the gap allows; margin constants are non-zero for '
              'nla/chic. Together with C17 (tiling) and C05 (job list) this is the static part of "each molecule is written by exactly one job". Does '
              'NOT decide equality of flags/tags between serial and parallel runs nor sufficiency of the margin for the actual fragment lengths.'),
-    'technique': 'static analysis: exhaustive ordering enumeration of ownership / stop predicates, exact clamp check of fetch windows, producer/consumer field agreement',
+    'technique': 'static analysis: exhaustive ordering enumeration of ownership / stop predicates, exact clamp check of fetch windows, producer/consumer field agreement; def-use check of the planned job list, constant-path check of a whole-contig task (window values stay None)',
     'design_ref': 'DESIGN.md section 5, C08',
 }
 
